@@ -87,7 +87,7 @@ TypeOK == /\ pc \in {"idle", "adjP", "tone", "bits", "mark", "gap", "done"}
 EdgesMonotone == Monotone(edges) /\ Last(edges) <= t
 
 \* C11: "contains exactly the pulses the block specifies": the played signal is the specified one
-PulsesExact == Done => PlayedSignal(edges) \in ExpectedSignals(tape, fe, gpol)
+PulsesExact == Done => SignalOK(edges, tape, fe, gpol)
 
 \* the level the tape is left at (not part of C11; holds on the model)
 FinalLevelOK == (Done /\ ~FinalTailEither(TapeSegs(tape, fe, gpol))) =>
@@ -100,5 +100,8 @@ RangesExact == Done => RangeClause(tape, fe, gpol, edges, RangesOf(St, tape)) = 
 FoldAgrees == Done => LET s == RunTape(tape, fe, gpol) IN s.edges = edges /\ s.ranges = ranges /\ s.t = t
 
 \* whenever a block has been played completely, the signal so far is the specified one
-PrefixExact == pc = "gap" => PlayedSignal(edges) = Canon(TrimSilence(TapeSegs(tape, fe, gpol)))
+PrefixExact == pc = "gap" => LET segs == TapeSegs(tape, fe, gpol) IN
+                 \/ PlayedSignal(edges) = Canon(TrimSilence(segs))
+                 \/ BlipTail(segs) /\ SigPrefix(Canon(TrimSilence(segs)), PlayedSignal(edges))
+                                   /\ SigPrefix(PlayedSignal(edges), Canon(DropMerged(segs)))
 =============================================================================
